@@ -141,7 +141,7 @@ class Parser:
             while not self.accept(")"):
                 ts.append(self.parse_type())
                 self.accept(",")
-            return ("tuple", ts)
+            return ("tuple", tuple(ts))
         if self.accept("["):
             t = self.parse_type()
             self.expect(";")
@@ -414,7 +414,7 @@ class Gen:
         if t == "Self::PositiveInteger":
             return self.spec["elem"]
         if isinstance(t, tuple) and t[0] == "tuple":
-            return ("tuple", [self.norm_ty(x) for x in t[1]])
+            return ("tuple", tuple(self.norm_ty(x) for x in t[1]))
         if isinstance(t, tuple) and t[0] == "arr":
             return ("arr", t[1], self.norm_ty(t[2]))
         return t
@@ -485,7 +485,7 @@ class Gen:
         if k == "tuple":
             parts = [self.expr(x, env, (want[1][i] if isinstance(want, tuple) and want[0] == "tuple" else None))
                      for i, x in enumerate(e[1])]
-            return "(" + ", ".join(p[0] for p in parts) + ")", ("tuple", [p[1] for p in parts])
+            return "(" + ", ".join(p[0] for p in parts) + ")", ("tuple", tuple(p[1] for p in parts))
         if k == "array":
             parts = [self.expr(x, env, (want[2] if isinstance(want, tuple) and want[0] == "arr" else None)) for x in e[1]]
             return "(" + ", ".join(p[0] for p in parts) + ")", ("arr", len(parts), parts[0][1])
@@ -509,10 +509,15 @@ class Gen:
             c, ct = self.expr(e[1], env, "bool")
             if ct != "bool":
                 raise TError("if condition is not bool")
-            a, at = self.block(e[2], env, want)
             if e[3] is None:
                 raise TError("if expression without else")
-            b, bt = self.block(e[3], env, at if want is None else want)
+            try:
+                a, at = self.block(e[2], env, want)
+                b, bt = self.block(e[3], env, at if want is None else want)
+            except TError:
+                # an untyped literal in the first branch: take the type from the second one
+                b, bt = self.block(e[3], env, want)
+                a, at = self.block(e[2], env, bt)
             return f"(if {c} then {a} else {b})", at
         if k == "block":
             return self.block(e[1], env, want)
@@ -671,10 +676,10 @@ class Gen:
                 return f"(-{l})", t
             if name == "overflowing_add":
                 b, _ = self.expr(args[0], env, t)
-                return f"(({l} + {b}), (BitVec.ult ({l} + {b}) {l}))", ("tuple", [t, "bool"])
+                return f"(({l} + {b}), (BitVec.ult ({l} + {b}) {l}))", ("tuple", (t, "bool"))
             if name == "overflowing_sub":
                 b, _ = self.expr(args[0], env, t)
-                return f"(({l} - {b}), (BitVec.ult {l} {b}))", ("tuple", [t, "bool"])
+                return f"(({l} - {b}), (BitVec.ult {l} {b}))", ("tuple", (t, "bool"))
             if name == "into":
                 return l, want or t
         raise TError(f"unsupported method .{name}() on {t!r}")
@@ -870,6 +875,46 @@ def translate(spec):
     return "\n".join(out) + "\n"
 
 
+def eval_nat_const(src, name, env, anchor=None):
+    start = src.find(anchor) if anchor else 0
+    if start < 0:
+        raise TError(f"anchor not found: {anchor!r}")
+    m = re.compile(r"\bconst\s+" + re.escape(name) + r"\s*:\s*[A-Za-z0-9_:<>]+\s*=\s*([^;]+);").search(src, start)
+    if not m:
+        raise TError(f"const {name} not found")
+    e = m.group(1).strip()
+    while True:
+        m2 = re.match(r"^(?:Self|BaseElement)(?:::new)?\s*\((.*)\)$", e, flags=re.S)
+        if not m2:
+            break
+        e = m2.group(1).strip()
+    e = re.sub(r"(u8|u16|u32|u64|u128|usize)$", "", e.replace("_", "")) if re.match(r"^[0-9]", e) else e
+    if re.match(r"^(0x[0-9a-fA-F]+|[0-9]+)$", e):
+        return int(e, 0)
+    if e in env:
+        return env[e]
+    raise TError(f"const {name}: cannot evaluate {e!r}")
+
+
+def translate_natconsts(spec):
+    """numeric constants (moduli, generators, roots of unity, two-adicity) as Lean `Nat` literals"""
+    out = ["/- GENERATED by tools/rs2lean.py — do not edit; regenerated on every check run. -/",
+           f"namespace {spec['namespace']}", ""]
+    for grp in spec["groups"]:
+        src = strip_comments(open(os.path.join(REPO, grp["file"])).read())
+        env = {}
+        out.append(f"namespace {grp['ns']}   -- {grp['file']}")
+        for c in grp["consts"]:
+            name, anchor = (c, None) if isinstance(c, str) else c
+            v = eval_nat_const(src, name, env, anchor)
+            env[name] = v
+            out.append(f"def {name} : Nat := {v}")
+        out.append(f"end {grp['ns']}")
+        out.append("")
+    out.append(f"end {spec['namespace']}")
+    return "\n".join(out) + "\n"
+
+
 def main():
     sys.path.insert(0, os.path.join(VERIF, "tools"))
     from rs2lean_specs import SPECS
@@ -879,7 +924,7 @@ def main():
         spec = SPECS[n]
         dst = os.path.join(VERIF, "lean", "Wf", "Gen", spec["out"])
         try:
-            text = translate(spec)
+            text = translate_natconsts(spec) if spec.get("kind") == "natconsts" else translate(spec)
         except TError as ex:
             print(f"rs2lean: {n}: TRANSLATION FAILED: {ex}")
             rc = 1
